@@ -211,5 +211,85 @@ fn line_range_to_byte_range(
 //#end
 //#include ../_shared/cursor_fns.inc.rs
 
+// ---------------------------------------------------------------- vocabulary for merge_ranges' loop (region mr_merge_loop)
+/// what `ranges.sort_by_key(|r| (r.0, r.1))` leaves behind, as far as the loop needs it: starts are non-decreasing
+pub open spec fn starts_sorted(rs: Seq<(usize, usize)>) -> bool { forall|i: int, j: int| 0 <= i < j < rs.len() ==> (#[trigger] rs[i]).0 <= (#[trigger] rs[j]).0 }
+/// position x lies in one of the first n ranges
+pub open spec fn pts_have(rs: Seq<(usize, usize)>, n: int, x: int) -> bool { exists|i: int| 0 <= i < n && (#[trigger] rs[i]).0 <= x < rs[i].1 }
+proof fn lemma_pts_step(rs: Seq<(usize, usize)>, k: int, x: int)
+    requires 0 <= k < rs.len()
+    ensures pts_have(rs, k + 1, x) <==> (pts_have(rs, k, x) || rs[k].0 <= x < rs[k].1)
+{
+    if pts_have(rs, k + 1, x) { let i = choose|i: int| 0 <= i < k + 1 && (#[trigger] rs[i]).0 <= x < rs[i].1; if i < k { assert(0 <= i < k && rs[i].0 <= x < rs[i].1); } }
+    if pts_have(rs, k, x) { let i = choose|i: int| 0 <= i < k && (#[trigger] rs[i]).0 <= x < rs[i].1; assert(0 <= i < k + 1 && rs[i].0 <= x < rs[i].1); }
+    if rs[k].0 <= x < rs[k].1 { assert(0 <= k < k + 1 && rs[k].0 <= x < rs[k].1); }
+}
+proof fn lemma_pts_push(v: Seq<(usize, usize)>, r: (usize, usize), x: int)
+    ensures pts_have(v.push(r), v.len() as int + 1, x) <==> (pts_have(v, v.len() as int, x) || r.0 <= x < r.1)
+{
+    let w = v.push(r);
+    if pts_have(w, w.len() as int, x) { let i = choose|i: int| 0 <= i < w.len() && (#[trigger] w[i]).0 <= x < w[i].1; if i < v.len() { assert(w[i] == v[i]); assert(0 <= i < v.len() && v[i].0 <= x < v[i].1); } else { assert(w[i] == r); } }
+    if pts_have(v, v.len() as int, x) { let i = choose|i: int| 0 <= i < v.len() && (#[trigger] v[i]).0 <= x < v[i].1; assert(w[i] == v[i]); assert(0 <= i < w.len() && w[i].0 <= x < w[i].1); }
+    if r.0 <= x < r.1 { let i = v.len() as int; assert(w[i] == r); assert(0 <= i < w.len() && w[i].0 <= x < w[i].1); }
+}
+/// only the end of the last range grew: the covered positions grow by [old end, new end)
+proof fn lemma_pts_grow_last(v: Seq<(usize, usize)>, w: Seq<(usize, usize)>, x: int)
+    requires v.len() > 0, w.len() == v.len(), forall|i: int| 0 <= i < v.len() - 1 ==> w[i] == v[i], w.last().0 == v.last().0, w.last().1 >= v.last().1, v.last().0 < v.last().1,
+    ensures pts_have(w, w.len() as int, x) <==> (pts_have(v, v.len() as int, x) || v.last().1 <= x < w.last().1)
+{
+    let n = v.len() as int;
+    if pts_have(w, n, x) { let i = choose|i: int| 0 <= i < n && (#[trigger] w[i]).0 <= x < w[i].1; if i < n - 1 { assert(w[i] == v[i]); assert(0 <= i < n && v[i].0 <= x < v[i].1); } else { if x < v.last().1 { assert(0 <= n - 1 < n && v[n - 1].0 <= x < v[n - 1].1); } } }
+    if pts_have(v, n, x) { let i = choose|i: int| 0 <= i < n && (#[trigger] v[i]).0 <= x < v[i].1; if i < n - 1 { assert(w[i] == v[i]); assert(0 <= i < n && w[i].0 <= x < w[i].1); } else { assert(0 <= n - 1 < n && w[n - 1].0 <= x < w[n - 1].1); } }
+    if v.last().1 <= x < w.last().1 { assert(0 <= n - 1 < n && w[n - 1].0 <= x < w[n - 1].1); }
+}
+//#item file=src/authorship/attribution_tracker.rs kind=region name=mr_merge_loop in=merge_ranges from="let mut merged: Vec<(usize, usize)> = Vec::new();" to="=merged" from_nth=0 to_nth=0 to_exclusive=yes
+//@ fn region_mr_merge_loop(ranges: Vec<(usize, usize)>) -> (r_: Vec<(usize, usize)>)
+//@     requires starts_sorted(ranges@),
+//@     ensures
+//@         // the form ranges_intersect requires: non-empty, sorted, pairwise disjoint
+//@         ranges_sorted_disjoint(r_@),
+//@         // and the merged list denotes exactly the positions of the input ranges
+//@         forall|x: int| pts_have(r_@, r_@.len() as int, x) <==> pts_have(ranges@, ranges@.len() as int, x),
+//@ {
+//@     let ghost rs = ranges@;
+    let mut merged: Vec<(usize, usize)> = Vec::new();
+
+    for (start, end) in it_0: ranges
+    //@     invariant
+    //@         it_0.snapshot@.remaining() =~= rs, starts_sorted(rs),
+    //@         ranges_sorted_disjoint(merged@),
+    //@         merged@.len() > 0 ==> (forall|j: int| it_0.index@ <= j < rs.len() ==> merged@.last().0 <= (#[trigger] rs[j]).0),
+    //@         forall|x: int| #![trigger pts_have(merged@, merged@.len() as int, x)] #![trigger pts_have(rs, it_0.index@, x)] pts_have(merged@, merged@.len() as int, x) <==> pts_have(rs, it_0.index@, x),
+    {
+        //@ let ghost k = it_0.index@;
+        //@ let ghost before = merged@;
+        //@ proof { assert((start, end) == rs[k]); }
+        if !(start >= end) {
+
+        if let Some(last) = merged.last_mut() {
+            if start <= last.1 {
+                last.1 = last.1.max(end);
+            } else {
+                merged.push((start, end));
+            }
+        } else {
+            merged.push((start, end));
+        }
+    }
+        //@ proof {
+        //@     assert forall|x: int| #![trigger pts_have(merged@, merged@.len() as int, x)] #![trigger pts_have(rs, k + 1, x)] pts_have(merged@, merged@.len() as int, x) <==> pts_have(rs, k + 1, x) by {
+        //@         lemma_pts_step(rs, k, x);
+        //@         assert(pts_have(before, before.len() as int, x) <==> pts_have(rs, k, x));
+        //@         if start < end {
+        //@             if merged@.len() > before.len() { lemma_pts_push(before, merged@[before.len() as int], x); assert(merged@ =~= before.push(merged@[before.len() as int])); }
+        //@             else { lemma_pts_grow_last(before, merged@, x); }
+        //@         } else { assert(merged@ == before); }
+        //@     }
+        //@ }
+    }
+//@     merged
+//@ }
+//#end
+
 } // verus!
 fn main() {}
